@@ -147,6 +147,8 @@ struct Succ {
     capped: bool,
     outcome: String,
     fatal: bool,
+    /// the path is cut here: a spin was reported
+    spin: bool,
 }
 struct Expansion {
     succs: Vec<Succ>,
@@ -184,10 +186,33 @@ fn one_succ(scn: &Arc<Scenario>, hist: &[Ev], ev: &Ev, mk: &MkMon) -> Result<Suc
         generic.push(MonViolation { clause: "codec", sig: "emitted-pdu".into(), detail: m.clone() });
     }
     let fatal = rec.err.as_ref().map_or(false, |e| e.2);
+    // generic spin: one side keeps emitting PDUs without any input or timer in between — more of
+    // them than the whole file plus every directive of the exchange amounts to
+    let mut spin = false;
+    if let Ev::Send(side) = ev {
+        // events that hand nothing to `side` do not interrupt its run
+        let no_input = |e: &Ev| match e {
+            Ev::Send(_) | Ev::Drop(_) => true,
+            Ev::Deliver(l) | Ev::Overtake(l, _) | Ev::Dup(l, _) | Ev::Corrupt(l, _) | Ev::Straggler(l, _) => l.to() != *side,
+            Ev::Timeout(s2, _) | Ev::User(s2, _) => s2 != side,
+            _ => false,
+        };
+        let run_len = h.iter().rev().take_while(|e| no_input(e)).filter(|e| matches!(e, Ev::Send(s2) if s2 == side)).count() as u64;
+        let nsegs = scn.file_size.map_or(0, |n| (n + scn.seg as u64 - 1) / scn.seg.max(1) as u64);
+        if run_len > nsegs + 8 {
+            spin = true;
+            let last = rec.out.last().map(|(_, p)| pdu_brief(p)).unwrap_or_default();
+            generic.push(MonViolation {
+                clause: "spin",
+                sig: format!("{:?}", side),
+                detail: format!("{:?} emitted {} PDUs in a row with no input and no timer in between (the file has {} segments); the last one is {}: it spins", side, run_len, nsegs, last),
+            });
+        }
+    }
     let key_s = run.key.clone();
     let enabled = run.enabled.clone();
     let capped = run.world.steps >= scn.max_depth;
-    let terminal = enabled.is_empty() && !capped;
+    let terminal = enabled.is_empty() && !capped && !spin;
     let mut viols = run.last_viols;
     let mut armed = run.last_armed;
     let mut outcome = String::new();
@@ -220,7 +245,7 @@ fn one_succ(scn: &Arc<Scenario>, hist: &[Ev], ev: &Ev, mk: &MkMon) -> Result<Suc
             run.mon.outcome()
         );
     }
-    Ok(Succ { ev: ev.clone(), key: h128(&key_s), out_digest: digest_rec(&rec), viols, generic, armed, terminal, capped, outcome, fatal })
+    Ok(Succ { ev: ev.clone(), key: h128(&key_s), out_digest: digest_rec(&rec), viols, generic, armed, terminal, capped, outcome, fatal, spin })
 }
 
 fn expand(scn: &Arc<Scenario>, hist: &[Ev], mk: &MkMon) -> Expansion {
@@ -325,7 +350,7 @@ pub fn explore(scn: Scenario, mk: &MkMon, opts: &Opts) -> ExploreResult {
     let mut depth_of: HashMap<u128, u32> = HashMap::new();
     depth_of.insert(root_key, 0);
     let mut digests: HashMap<u128, u64> = HashMap::new();
-    let mut edges: Vec<(u128, u128)> = vec![];
+    let mut edges: Vec<(u128, u128, Ev)> = vec![];
     let mut audit: Vec<(u128, Vec<Ev>)> = vec![];
     let mut frontier = vec![root_key];
     let mut sig_seen: HashMap<String, usize> = HashMap::new();
@@ -345,7 +370,7 @@ pub fn explore(scn: Scenario, mk: &MkMon, opts: &Opts) -> ExploreResult {
             digests.insert(*from, exp_digest(&exp));
             for s in exp.succs {
                 res.transitions += 1;
-                edges.push((*from, s.key));
+                edges.push((*from, s.key, s.ev.clone()));
                 for a in &s.armed {
                     *res.armed.entry(a).or_insert(0) += 1;
                 }
@@ -403,6 +428,8 @@ pub fn explore(scn: Scenario, mk: &MkMon, opts: &Opts) -> ExploreResult {
                         let h = full(&mut h2);
                         res.sample = Some(json!({"scenario": scn.name, "history": h.iter().map(|e| format!("{:?}", e)).collect::<Vec<_>>(), "outcome": s.outcome}));
                     }
+                } else if s.spin {
+                    digests.insert(s.key, 0);
                 } else if !s.capped {
                     next.push(s.key);
                 }
@@ -439,7 +466,7 @@ pub fn explore(scn: Scenario, mk: &MkMon, opts: &Opts) -> ExploreResult {
     if !res.capped {
         let mut indeg: HashMap<u128, u32> = depth_of.keys().map(|k| (*k, 0)).collect();
         let mut adj: HashMap<u128, Vec<u128>> = HashMap::new();
-        for (a, b) in &edges {
+        for (a, b, _) in &edges {
             *indeg.get_mut(b).unwrap() += 1;
             adj.entry(*a).or_default().push(*b);
         }
@@ -458,15 +485,57 @@ pub fn explore(scn: Scenario, mk: &MkMon, opts: &Opts) -> ExploreResult {
             }
         }
         if removed < depth_of.len() as u64 && !scn.allow_cycles {
-            // pick the shallowest node that is left (on or behind a cycle); walk to a node on it
-            let mut left: Vec<(u32, u128)> = indeg.iter().filter(|(_, d)| **d > 0).map(|(k, _)| (depth_of[k], *k)).collect();
-            left.sort();
-            let k = left[0].1;
-            let h = history_of(&parent, k, root_key);
+            // what Kahn leaves lies on or behind a cycle; pruning backwards (nodes without a
+            // successor among those left) keeps the nodes on cycles and between them
+            let mut left: std::collections::HashSet<u128> = indeg.iter().filter(|(_, d)| **d > 0).map(|(k, _)| *k).collect();
+            let behind = left.len();
+            loop {
+                let dead: Vec<u128> = left.iter().filter(|k| !adj.get(*k).map_or(false, |ns| ns.iter().any(|n| left.contains(n)))).cloned().collect();
+                if dead.is_empty() {
+                    break;
+                }
+                for d in dead {
+                    left.remove(&d);
+                }
+            }
+            // the shallowest such node, then a walk inside the set until a state repeats
+            let mut cand: Vec<(u32, u128)> = left.iter().map(|k| (depth_of[k], *k)).collect();
+            cand.sort();
+            let k = cand[0].1;
+            let mut h = history_of(&parent, k, root_key);
+            let mut succ_ev: HashMap<u128, (u128, Ev)> = HashMap::new();
+            for (a, b, ev) in &edges {
+                if left.contains(a) && left.contains(b) {
+                    let e = succ_ev.entry(*a).or_insert((*b, ev.clone()));
+                    // prefer the smallest successor for a deterministic walk
+                    if *b < e.0 {
+                        *e = (*b, ev.clone());
+                    }
+                }
+            }
+            let mut seen_at: HashMap<u128, usize> = HashMap::new();
+            let mut cur = k;
+            let mut walk: Vec<Ev> = vec![];
+            while !seen_at.contains_key(&cur) {
+                seen_at.insert(cur, walk.len());
+                let (n, ev) = succ_ev[&cur].clone();
+                walk.push(ev);
+                cur = n;
+            }
+            let loop_from = seen_at[&cur];
+            let prefix_len = h.len() + loop_from;
+            h.extend(walk.iter().cloned());
             let v = MonViolation {
                 clause: "livelock",
                 sig: "cycle".into(),
-                detail: format!("the state graph has a cycle ({} of {} states lie on or behind one): this behaviour can repeat forever", depth_of.len() as u64 - removed, depth_of.len()),
+                detail: format!(
+                    "the state graph has a cycle ({} of {} states lie on cycles, {} on or behind one): the events from step #{} on lead back to the state before step #{} and can repeat forever",
+                    left.len(),
+                    depth_of.len(),
+                    behind,
+                    prefix_len,
+                    prefix_len
+                ),
             };
             let tr = trace_text(&scn, &h, mk);
             res.generic.push(wrap(&scn, &h, &v, Some(tr)));
